@@ -47,7 +47,6 @@ inductive Status
   deriving DecidableEq, Repr
 
 structure Call where
-  seq : Nat
   tag : Nat       -- request payload tag
   st : Status
   deriving DecidableEq, Repr
@@ -65,65 +64,64 @@ inductive Event
   deriving DecidableEq, Repr
 
 structure State where
-  nextSeq : Nat            -- c.correlationID
-  calls : List Call        -- every call so far, in doRequest order
-  stream : List Frame      -- frames not yet consumed
-  consumed : Nat           -- number of frames consumed so far (ghost: position in the original stream)
-  rlock : Option Nat       -- seq of the holder of c.rlock (between take and finish)
+  nextSeq : Nat               -- c.correlationID
+  calls : Nat → Option Call   -- every call so far, by seq (1 … nextSeq)
+  stream : List Frame         -- frames not yet consumed
+  consumed : Nat              -- number of frames consumed so far (ghost: position in the original stream)
+  rlock : Option Nat          -- seq of the holder of c.rlock (between take and finish)
   closed : Bool
-  deriving DecidableEq, Repr
 
 def init (stream : List Frame) : State :=
-  { nextSeq := 0, calls := [], stream := stream, consumed := 0, rlock := none, closed := false }
+  { nextSeq := 0, calls := fun _ => none, stream := stream, consumed := 0, rlock := none, closed := false }
 
-def statusOf (calls : List Call) (seq : Nat) : Option Status :=
-  (calls.find? (·.seq == seq)).map (·.st)
+def upd (m : Nat → Option Call) (k : Nat) (v : Call) : Nat → Option Call :=
+  fun i => if i = k then some v else m i
 
-def setStatus (calls : List Call) (seq : Nat) (st : Status) : List Call :=
-  calls.map (fun c => if c.seq == seq then { c with st := st } else c)
+def setStatus (s : State) (seq : Nat) (st : Status) : Nat → Option Call :=
+  fun i => if i = seq then (s.calls seq).map (fun c => { c with st := st }) else s.calls i
 
-def isWaiting (c : Call) : Bool := c.st == .waiting
+def statusOf (s : State) (seq : Nat) : Option Status := (s.calls seq).map (·.st)
 
 /-- no call other than `seq` is inside waitResponse -/
-def aloneWaiting (calls : List Call) (seq : Nat) : Bool :=
-  calls.all (fun c => c.seq == seq || !isWaiting c)
+def aloneWaiting (s : State) (seq : Nat) : Bool :=
+  (List.range (s.nextSeq + 1)).all (fun i => i == seq || statusOf s i != some .waiting)
 
 def step (s : State) : Event → Option State
   | .write tag ok =>
     let seq := s.nextSeq + 1
-    if ok then some { s with nextSeq := seq, calls := s.calls ++ [⟨seq, tag, .waiting⟩] }
-    else some { s with nextSeq := seq, calls := s.calls ++ [⟨seq, tag, .done .err⟩], closed := true }
+    if ok then some { s with nextSeq := seq, calls := upd s.calls seq ⟨tag, .waiting⟩ }
+    else some { s with nextSeq := seq, calls := upd s.calls seq ⟨tag, .done .err⟩, closed := true }
   | .take seq =>
-    match s.rlock, statusOf s.calls seq, s.stream with
+    match s.rlock, statusOf s seq, s.stream with
     | none, some .waiting, f :: rest =>
       if f.id = wire seq then
         some { s with rlock := some seq, stream := rest, consumed := s.consumed + 1,
-                      calls := setStatus s.calls seq (.reading s.consumed f) }
+                      calls := setStatus s seq (.reading s.consumed f) }
       else none
     | _, _, _ => none
   | .yield seq seen =>
-    match s.rlock, statusOf s.calls seq, s.stream with
+    match s.rlock, statusOf s seq, s.stream with
     | none, some .waiting, f :: _ => if f.id = seen ∧ seen ≠ wire seq then some s else none
     | _, _, _ => none
   | .lone seq seen =>
-    match s.rlock, statusOf s.calls seq, s.stream with
+    match s.rlock, statusOf s seq, s.stream with
     | none, some .waiting, f :: _ =>
-      if f.id = seen ∧ seen ≠ wire seq ∧ aloneWaiting s.calls seq then
-        some { s with calls := setStatus s.calls seq (.done .err) }
+      if f.id = seen ∧ seen ≠ wire seq ∧ aloneWaiting s seq then
+        some { s with calls := setStatus s seq (.done .err) }
       else none
     | _, _, _ => none
   | .peekErr seq =>
-    match s.rlock, statusOf s.calls seq with
-    | none, some .waiting => some { s with calls := setStatus s.calls seq (.done .err), closed := true }
+    match s.rlock, statusOf s seq with
+    | none, some .waiting => some { s with calls := setStatus s seq (.done .err), closed := true }
     | _, _ => none
   | .finish seq o =>
-    match s.rlock, statusOf s.calls seq with
+    match s.rlock, statusOf s seq with
     | some h, some (.reading pos f) =>
       if h = seq then
         match o with
-        | .ok => some { s with rlock := none, calls := setStatus s.calls seq (.done (.resp pos f)) }
-        | .kafka => some { s with rlock := none, calls := setStatus s.calls seq (.done (.kafkaErr pos f)) }
-        | .io => some { s with rlock := none, calls := setStatus s.calls seq (.done .err), closed := true }
+        | .ok => some { s with rlock := none, calls := setStatus s seq (.done (.resp pos f)) }
+        | .kafka => some { s with rlock := none, calls := setStatus s seq (.done (.kafkaErr pos f)) }
+        | .io => some { s with rlock := none, calls := setStatus s seq (.done .err), closed := true }
       else none
     | _, _ => none
 
@@ -141,11 +139,15 @@ def firstRejected : State → List Event → Nat → Option Nat
     | none => some i
     | some s' => firstRejected s' es (i + 1)
 
-/-- the frame a call got, if it got one (still reading it, or returned from it) -/
-def Call.frame : Call → Option (Nat × Frame)
-  | ⟨_, _, .reading p f⟩ => some (p, f)
-  | ⟨_, _, .done (.resp p f)⟩ => some (p, f)
-  | ⟨_, _, .done (.kafkaErr p f)⟩ => some (p, f)
+/-- the frame a call got, if it got one (still reading it, or returned from it), with its position -/
+def Status.frame : Status → Option (Nat × Frame)
+  | .reading p f => some (p, f)
+  | .done (.resp p f) => some (p, f)
+  | .done (.kafkaErr p f) => some (p, f)
   | _ => none
+
+/-- all calls so far, in doRequest order: (seq, call) -/
+def State.callList (s : State) : List (Nat × Call) :=
+  (List.range (s.nextSeq + 1)).filterMap (fun i => (s.calls i).map (fun c => (i, c)))
 
 end KV.ConnMux
